@@ -49,7 +49,7 @@ VARIABLES
 vars == <<subs, blocks, queue, next, log, frames, due, fate, origin, phase, nlate, nnest, act>>
 view == <<subs, blocks, queue, next, log, frames, due, fate, origin, phase, nlate, nnest>>
 
-NoMsg == [id |-> 0, c |-> "-", tag |-> 0]
+NoMsg == [id |-> 0, c |-> "-", tag |-> 0, acc |-> {}]
 Act(op, l, c, p, f, tag, exc, m) == [op |-> op, l |-> l, c |-> c, p |-> p, f |-> f, tag |-> tag, exc |-> exc, m |-> m]
 NoAct == Act("Init", "-", "-", 0, "-", 0, FALSE, 0)
 
@@ -65,12 +65,15 @@ DelayDepth == Cardinality({i \in DOMAIN blocks : blocks[i].k = "delay"})
 Ignored(c) == \E i \in DOMAIN blocks : blocks[i].k = "ignore" /\ blocks[i].c = c   \* exact type only
 
 (* who receives message m now: per listener the most specific subscribed superclass, filtered *)
-Accepts(f, m) == \/ f = "all"
-                 \/ f = "tag" /\ m.tag = 1
+(* filter kinds: "all", "none", "tag" (accepts messages tagged 1) are used by the model; "logged" is used by
+   Trace_Hub.tla, where the outcome of every filter evaluation is read from the recorded execution (m.acc) *)
+Accepts(s, m) == \/ s.f = "all"
+                 \/ s.f = "tag" /\ m.tag = 1
+                 \/ s.f = "logged" /\ <<s.l, s.c>> \in m.acc
 SubsFor(l, m) == {s \in subs : s.l = l /\ s.c \in Anc(m.c)}
 Best(l, m)    == CHOOSE s \in SubsFor(l, m) : \A t \in SubsFor(l, m) : Depth(t.c) <= Depth(s.c)
-Recipients(m) == {[l |-> l, p |-> Best(l, m).p] :
-                     l \in {x \in Listener : SubsFor(x, m) # {} /\ Accepts(Best(x, m).f, m)}}
+Candidates(m) == {Best(l, m) : l \in {x \in Listener : SubsFor(x, m) # {}}}    \* the subscription consulted per listener
+Recipients(m) == {[l |-> s.l, p |-> s.p, c |-> s.c] : s \in {x \in Candidates(m) : Accepts(x, m)}}
 
 (* control *)
 Top      == frames[Len(frames)]
@@ -116,12 +119,16 @@ Init ==
 
 PrioOK(l, c, p) == DistinctPrio => \A s \in subs : (s.l = l /\ s.c = c) \/ s.p # p
 
+SubscribeEff(l, c, p, f) == subs' = {s \in subs : ~(s.l = l /\ s.c = c)} \cup {[l |-> l, c |-> c, p |-> p, f |-> f]}
+UnsubscribeEff(l, c) == subs' = {s \in subs : ~(s.l = l /\ s.c = c)}
+UnsubscribeAllEff(l) == subs' = {s \in subs : s.l # l}
+
 Subscribe(l, c, p, f) ==
     /\ AtCall
     /\ PrioOK(l, c, p)
     /\ \/ phase = "setup" /\ Cardinality(subs) < MaxSetup /\ nlate' = nlate
        \/ phase = "run" /\ nlate < MaxLate /\ nlate' = nlate + 1
-    /\ subs' = {s \in subs : ~(s.l = l /\ s.c = c)} \cup {[l |-> l, c |-> c, p |-> p, f |-> f]}
+    /\ SubscribeEff(l, c, p, f)
     /\ act' = Act("Subscribe", l, c, p, f, 0, FALSE, 0)
     /\ UNCHANGED <<blocks, queue, next, log, frames, due, fate, origin, phase>>
 
@@ -130,7 +137,7 @@ Unsubscribe(l, c) ==
     /\ phase = "run"
     /\ nlate < MaxLate
     /\ nlate' = nlate + 1
-    /\ subs' = {s \in subs : ~(s.l = l /\ s.c = c)}
+    /\ UnsubscribeEff(l, c)
     /\ act' = Act("Unsubscribe", l, c, 0, "-", 0, FALSE, 0)
     /\ UNCHANGED <<blocks, queue, next, log, frames, due, fate, origin, phase>>
 
@@ -139,21 +146,22 @@ UnsubscribeAll(l) ==
     /\ phase = "run"
     /\ nlate < MaxLate
     /\ nlate' = nlate + 1
-    /\ subs' = {s \in subs : s.l # l}
+    /\ UnsubscribeAllEff(l)
     /\ act' = Act("UnsubscribeAll", l, "-", 0, "-", 0, FALSE, 0)
     /\ UNCHANGED <<blocks, queue, next, log, frames, due, fate, origin, phase>>
 
-Broadcast(c, tag) ==
+BroadcastM(m) ==          \* m.id = next
     /\ AtCall
     /\ next <= MaxMsg
     /\ Len(frames) < MaxFrames
-    /\ LET m == [id |-> next, c |-> c, tag |-> tag] IN
-         /\ Dispatch(m, frames, queue)
-         /\ origin' = [origin EXCEPT ![m.id] = Len(frames)]
+    /\ Dispatch(m, frames, queue)
+    /\ origin' = [origin EXCEPT ![m.id] = Len(frames)]
     /\ next' = next + 1
     /\ phase' = "run"
-    /\ act' = Act("Broadcast", "-", c, 0, "-", tag, FALSE, next)
+    /\ act' = Act("Broadcast", "-", m.c, 0, "-", m.tag, FALSE, next)
     /\ UNCHANGED <<subs, blocks, log, nlate>>
+
+Broadcast(c, tag) == BroadcastM([id |-> next, c |-> c, tag |-> tag, acc |-> {}])
 
 DelayEnter ==
     /\ AtCall
@@ -225,14 +233,16 @@ HandlerReturn ==
     /\ act' = Act("HandlerReturn", Top.l, Top.m.c, 0, "-", 0, FALSE, Top.m.id)
     /\ UNCHANGED <<subs, blocks, queue, next, log, due, fate, origin, phase, nlate, nnest>>
 
-FlushNext ==
+FlushNextAcc(acc) ==      \* acc: filter outcomes for this message, known only now (trace validation); {} in the model
     /\ frames # <<>>
     /\ Top.k = "flush"
     /\ Top.q # <<>>
-    /\ LET m == Head(Top.q) IN
+    /\ LET m == [Head(Top.q) EXCEPT !.acc = acc] IN
          /\ Dispatch(m, [frames EXCEPT ![Len(frames)].q = Tail(@)], queue)
          /\ act' = Act("FlushNext", "-", m.c, 0, "-", m.tag, FALSE, m.id)
     /\ UNCHANGED <<subs, blocks, next, log, origin, phase, nlate, nnest>>
+
+FlushNext == FlushNextAcc({})
 
 FlushDone ==
     /\ frames # <<>>
